@@ -23,6 +23,7 @@ type c08Sample struct {
 	Lens     []int          `json:"stream_lengths"`
 	Upstream int            `json:"upstream_connections"`
 	PoolReuse int           `json:"pooled_buffer_reuses"`
+	OpenVPN  string         `json:"openvpn_matcher"`
 }
 
 func init() {
@@ -45,6 +46,7 @@ func runC08(t *testing.T, e *worlds.Env, tier string) (bool, any) {
 	}
 	var conns []*cs
 	var who *whoRec
+	ovIdx := 0
 	e.Run(t, func() func() bool {
 		tp := e.T
 		e.N.Cfg = netKnobs(e)
@@ -114,6 +116,13 @@ func runC08(t *testing.T, e *worlds.Env, tier string) (bool, any) {
 			panic(err)
 		}
 		recV := HSpec{Kind: "recorder", Name: "recV", MaxBuf: 4096}
+		// the shared matcher instance: the default configuration (digest cache) or a keyed one
+		// (HMAC / cipher state per key); with keys a generated client may legitimately not match
+		ovIdx = tp.Pick("ovpn-config", 0, 5, 6, 8, 10)
+		if ovIdx >= len(ovMs) {
+			ovIdx = 0
+		}
+		sample.OpenVPN = ovMs[ovIdx].Name
 		// TLS on both sides, transparent: the proxy's `tls` option without any customisation takes
 		// server name and protocols for the upstream handshake from the client's own ClientHello
 		tlsH := HSpec{Kind: "tls", Name: "tlsT"}
@@ -135,7 +144,7 @@ func runC08(t *testing.T, e *worlds.Env, tier string) (bool, any) {
 			layer4.VerifNewRoute([]layer4.MatcherSet{{first('B')}}, []layer4.NextHandler{b.Handler(&markB, sig), b.Handler(&teeSpec, sig), b.Handler(&echoMark, sig), b.Handler(&echoH, sig)}),
 			layer4.VerifNewRoute([]layer4.MatcherSet{{first('C')}}, []layer4.NextHandler{b.Handler(&conC, sig), b.Handler(&subC, sig)}),
 			layer4.VerifNewRoute([]layer4.MatcherSet{{first('D')}}, []layer4.NextHandler{ph}),
-			layer4.VerifNewRoute([]layer4.MatcherSet{{ovMs[0].M}}, []layer4.NextHandler{b.Handler(&recV, sig)}),
+			layer4.VerifNewRoute([]layer4.MatcherSet{{ovMs[ovIdx].M}}, []layer4.NextHandler{b.Handler(&recV, sig)}),
 			// the subroute ends its route; the stream as it left it (next byte 'e') selects the next route
 			layer4.VerifNewRoute([]layer4.MatcherSet{{first('E')}}, []layer4.NextHandler{b.Handler(&subE, sig)}),
 			layer4.VerifNewRoute([]layer4.MatcherSet{{first('e')}}, []layer4.NextHandler{b.Handler(&recE, sig)}),
@@ -252,6 +261,9 @@ func runC08(t *testing.T, e *worlds.Env, tier string) (bool, any) {
 					fail("misrouted", "conn %d (first byte %q) was handled by %s; alone it is handled by %q", m.ID, c.class, h, want)
 					return
 				}
+			}
+			if c.class == 'V' && ovIdx != 0 {
+				want = "" // keyed configuration: the generated client need not verify
 			}
 			if want != "" && !ran[want] && len(m.App) > 0 {
 				fail("misrouted", "conn %d (first byte %q) never reached its handler %s (handlers that ran: %v)", m.ID, c.class, want, keys(ran))
